@@ -28,7 +28,10 @@ import (
 //
 //	cfg [0, Time_ms, Timeout_ms, permit]   a real http2Client with keepalive against a scripted peer
 //	    kinds: 1 wait, 2 the peer sends a byte (a PING frame), 3 open a stream, 4 close the oldest
-//	    stream, 5 / 6 the peer starts / stops acknowledging pings
+//	    stream (not the last stream of a draining transport: that closes the connection for a reason
+//	    other than keepalive), 5 / 6 the peer starts / stops acknowledging pings, 7 the peer sends a
+//	    graceful GOAWAY(NO_ERROR, last-stream-id 2^31-1) - only while a stream is open (a transport
+//	    without streams is closed by handleGoAway); the transport is draining from then on
 //	    obs [now_ms, events...], events [6, t] keepalive PING seen by the peer at t, [8, t] connection closed at t
 //	cfg [1, MinTime_ms, permit]            a real http2Server with a keepalive enforcement policy
 //	    kinds: 1 wait, 2 the client sends a PING, 3 the client opens a stream, 4 the server finishes
@@ -133,7 +136,7 @@ func vKeepaliveClientRun(cfg []int64, ops [][]int64) (obs [][]int64, nt bool, ta
 	synctest.Wait()
 	p.take()
 	var open []*ClientStream
-	pings, closed := 0, false
+	pings, closed, draining := 0, false, false
 	for _, op := range ops {
 		if len(op) != 2 || op[1] < 0 || op[1] > 20000 {
 			obs = append(obs, []int64{p.ms()})
@@ -153,9 +156,16 @@ func vKeepaliveClientRun(cfg []int64, ops [][]int64) (obs [][]int64, nt bool, ta
 				open = append(open, s)
 			}
 		case 4:
-			if len(open) > 0 {
+			if len(open) > 0 && !(draining && len(open) == 1) {
 				open[0].Close(status.Error(codes.Canceled, "done"))
 				open = open[1:]
+			}
+		case 7:
+			if !closed && len(open) >= 1 {
+				var b bytes.Buffer
+				http2.NewFramer(&b, nil).WriteGoAway(math.MaxInt32, http2.ErrCodeNo, nil)
+				p.write(b.Bytes())
+				draining = true
 			}
 		case 5, 6:
 			p.mu.Lock()
@@ -179,6 +189,9 @@ func vKeepaliveClientRun(cfg []int64, ops [][]int64) (obs [][]int64, nt bool, ta
 	}
 	if pings > 0 {
 		tags = append(tags, "pinged")
+	}
+	if draining {
+		tags = append(tags, "draining")
 	}
 	return obs, pings > 0, tags
 }
@@ -359,6 +372,14 @@ func vKeepaliveGen(r *vRand, tier string, idx int) ([]int64, [][]int64) {
 		case 8:
 			// dormancy without any byte: ping on wake-up, closed Timeout later
 			return []int64{0, 10000, 5000, 0}, [][]int64{{1, 12}, {3, 100}, {1, 4}, {1, 0}, {1, 4}}
+		case 12:
+			// a stream, a graceful GOAWAY (the transport is draining, the stream goes on), then the
+			// peer goes silent: ping Time after the GOAWAY, closed Timeout later
+			return []int64{0, 5000, 2000, 0}, [][]int64{{3, 0}, {7, 0}, {1, 5}, {1, 3}, {1, 10}}
+		case 14:
+			// draining with a healthy peer (acks on, a byte every Time), streams opened/closed in vain,
+			// then silence
+			return []int64{0, 2000, 3000, 0}, [][]int64{{5, 0}, {3, 0}, {3, 0}, {7, 1}, {2, 1}, {4, 1}, {4, 1}, {3, 0}, {2, 1}, {7, 1}, {2, 1}, {6, 0}, {1, 2}, {1, 2}, {1, 2}}
 		}
 		n := 10 + r.Intn(16)
 		for i := 0; i < n; i++ {
@@ -366,7 +387,7 @@ func vKeepaliveGen(r *vRand, tier string, idx int) ([]int64, [][]int64) {
 			if x < 0 {
 				x = 0
 			}
-			k := r.PickI64(1, 1, 1, 2, 2, 2, 3, 3, 4, 5, 6)
+			k := r.PickI64(1, 1, 1, 2, 2, 2, 3, 3, 4, 5, 6, 7)
 			ops = append(ops, []int64{k, x})
 		}
 		return cfg, ops
